@@ -698,14 +698,19 @@ Section Loop2.
   Hypothesis Hv : Forall valid_delta ds.
   Hypothesis Hch : chronological ds.
 
-  Let so := nsort (s_secs st).
+  (* the order in which the security set is walked: any enumeration of it *)
+  Variable so : list N.
+  Hypothesis Hso : Permutation so (s_secs st).
   Let D := zsort (map fst (s_days st)).
   Let zero := s_zero st.
 
   Lemma so_nodup : NoDup so.
-  Proof. eapply Permutation_NoDup; [apply Permutation_sym, nsort_perm|apply (i_secs _ _ HI)]. Qed.
+  Proof. eapply Permutation_NoDup; [apply Permutation_sym; exact Hso|apply (i_secs _ _ HI)]. Qed.
   Lemma so_in s : In s so <-> rows_of ds s <> [].
-  Proof. unfold so. rewrite nsort_in. apply (i_secs_in _ _ HI). Qed.
+  Proof.
+    rewrite <- (i_secs_in _ _ HI). split; intros H; eapply Permutation_in; try eassumption.
+    apply Permutation_sym. exact Hso.
+  Qed.
 
   Lemma row_facts s c : In c (rows_of ds s) -> In c ds /\ counted c = true /\ cd_sec c = s.
   Proof.
@@ -810,9 +815,10 @@ Section Loop2.
     assert (Hsplit : forall y, In y D -> y < d' -> In y Dp).
     { intros y Hy Hyd. rewrite HD in Hy. apply in_app_or in Hy. destruct Hy as [Hy|[Hy|Hy]]; [exact Hy|lia|].
       specialize (Hgt _ Hy). lia. }
-    assert (Hkey : In d' (map fst (s_days st))) by (unfold D in HdD; apply zsort_in in HdD; exact HdD).
+    assert (Hkey : In d' (map fst (s_days st))) by (apply (proj1 (zsort_in d' _)); exact HdD).
     apply zlookup_in_keys in Hkey. destruct Hkey as [r0 Er0].
-    assert (Er0' : zlookup d' days = Some r0) by (rewrite (j_todo _ _ HJ d' Hnotin); exact Er0).
+    assert (Er0' : zlookup d' days = Some r0).
+    { assert (Ht := j_todo _ _ HJ d' Hnotin). cbn [fst] in Ht. rewrite Ht. exact Er0. }
     assert (Hr0 : rec_ok r0) by (eapply (i_days_ok _ _ HI); exact Er0).
     assert (Hr0c : forall s, alookup s (dr_costs r0) = dmax ds d' s).
     { intros s. rewrite <- (i_days _ _ HI). unfold day_costs. rewrite Er0. reflexivity. }
@@ -845,14 +851,16 @@ Section Loop2.
         assert (Hcar : carf zero cl r0 last s = carry_out ds d' s).
         { rewrite (carry_out_eq ds d' s Hch). unfold carf. rewrite Hcl.
           destruct (dclose ds d' s); [reflexivity|]. rewrite (Hvalf s Hs). apply spec_cost_unfold. }
-        rewrite Hcar. unfold carry_in, carry_out. f_equal. f_equal.
+        rewrite Hcar.
+        assert (Hf : before d'' (rows_of ds s) = upto d' (rows_of ds s));
+          [|unfold carry_in, carry_out; rewrite Hf; reflexivity].
         unfold before, upto. apply filter_ext_in. intros c Hc.
         assert (HyD := row_day_in_D s c Hc). set (y := cd_day c) in *.
         assert (Hd'' : d' < d'') by (apply Hall; apply in_or_app; right; left; reflexivity).
         destruct (Z.leb_spec y d') as [Hle|Hgt'].
         * apply Z.ltb_lt. lia.
         * apply Z.ltb_ge. destruct (Z.lt_ge_cases y d'') as [Hlt''|Hge]; [|lia].
-          specialize (Honly y HyD Hlt''). apply in_app_or in Honly. destruct Honly as [Hin|[<-|[]]]; [|lia].
+          specialize (Honly y HyD Hlt''). apply in_app_or in Honly. destruct Honly as [Hin|[Hin|[]]]; [|lia].
           specialize (Hlt y Hin). lia.
   Qed.
 
@@ -868,11 +876,492 @@ Section Loop2.
   Qed.
 
   Lemma loop2_spec :
-    exists days, loop2 exact CarryClosing so st = Ok days /\ Inv2 D (days, []) \/
-                 exists last, loop2 exact CarryClosing so st = Ok days /\ Inv2 D (days, last).
+    exists days last, loop2 exact CarryClosing so st = Ok days /\ Inv2 D (days, last).
   Proof.
     destruct (loop2_days D [] (s_days st, []) eq_refl Inv2_init) as [[days last] [E HJ]].
-    exists days. right. exists last. split; [|exact HJ].
+    exists days, last. split; [|exact HJ].
     unfold loop2. fold D zero. rewrite E. reflexivity.
   Qed.
+
+  (* ---- what the final day map says ---- *)
+  Lemma final_day days last d :
+    Inv2 D (days, last) -> In d D ->
+    exists r, zlookup d days = Some r /\
+              (forall s, In s so -> alookup s (dr_costs r) = Some (spec_cost ds d s)) /\
+              dr_total r = qsum (map (spec_cost ds d) so).
+  Proof.
+    intros HJ Hd. destruct (j_done _ _ HJ d Hd) as [r [Er [Hr [Hc Hk]]]]. cbn [fst] in Er.
+    exists r. split; [exact Er|]. split; [exact Hc|].
+    destruct Hr as [Ht [Hn _]]. rewrite Ht.
+    rewrite (asum_over (dr_costs r) so Hn so_nodup).
+    - f_equal. apply map_ext_in. intros s Hs. unfold aval. rewrite (Hc s Hs). reflexivity.
+    - intros s. split; [|apply Hk]. intros Hs. apply alookup_in_keys. eexists. apply (Hc s Hs).
+  Qed.
 End Loop2.
+
+(* ------------------------------------------------------------------ *)
+(* yearly maximum                                                        *)
+
+Section Picks.
+  Variable days : list (Z * dayrec).
+  Variable T : Z -> Qc.
+  Variable D : list Z.
+  Hypothesis HD : StronglySorted Z.lt D.
+  Hypothesis Hdays : forall d, In d D -> exists r, zlookup d days = Some r /\ dr_total r = T d.
+
+  Definition better (d d' : Z) : Prop := (T d' < T d)%Qc \/ (T d' = T d /\ d <= d').
+
+  Record PInv (Dp : list Z) (picks : list (Z * Z)) : Prop := {
+    p_nodup : NoDup (map fst picks);
+    p_pick : forall y d, zlookup y picks = Some d ->
+                         In d Dp /\ year_of d = y /\
+                         forall d', In d' Dp -> year_of d' = y -> better d d';
+    p_years : forall d', In d' Dp -> In (year_of d') (map fst picks)
+  }.
+
+  Lemma pick_step_spec Dp d Dr picks :
+    D = Dp ++ d :: Dr -> PInv Dp picks ->
+    exists picks', pick_step days picks d = Ok picks' /\ PInv (Dp ++ [d]) picks'.
+  Proof.
+    intros E HP. assert (Hs := HD). rewrite E in Hs.
+    destruct (sorted_lt_mid Dp d Dr Hs) as [Hlt _].
+    assert (HdD : In d D) by (rewrite E; apply in_or_app; right; left; reflexivity).
+    destruct (Hdays d HdD) as [r [Er Hr]].
+    unfold pick_step. rewrite Er.
+    assert (Hnew : forall picks0, PInv Dp picks0 ->
+              (forall d0, zlookup (year_of d) picks0 = Some d0 -> (T d0 < T d)%Qc) ->
+              PInv (Dp ++ [d]) (zupdate (year_of d) d picks0)).
+    { intros picks0 HP0 Hold. constructor.
+      - apply zupdate_nodup. apply (p_nodup _ _ HP0).
+      - intros y d1. destruct (Z.eq_dec y (year_of d)) as [->|Hne].
+        + rewrite zlookup_zupdate_eq. intros H. inversion H; subst d1.
+          split; [apply in_or_app; right; left; reflexivity|]. split; [reflexivity|].
+          intros d' Hd' Hy. apply in_app_or in Hd'. destruct Hd' as [Hd'|[<-|[]]].
+          * left. (* an earlier day of the same year: the old pick was at least as good *)
+            assert (Hk := p_years _ _ HP0 d' Hd'). rewrite Hy in Hk.
+            apply zlookup_in_keys in Hk. destruct Hk as [d0 Ed0].
+            destruct (p_pick _ _ HP0 _ _ Ed0) as [_ [_ Hb]].
+            specialize (Hold d0 Ed0). destruct (Hb d' Hd' Hy) as [H1|[H1 _]].
+            -- eapply Qclt_trans; eassumption.
+            -- rewrite H1. exact Hold.
+          * right. split; [reflexivity|lia].
+        + rewrite zlookup_zupdate_neq by exact Hne. intros H.
+          destruct (p_pick _ _ HP0 _ _ H) as [Hin [Hy Hb]].
+          split; [apply in_or_app; left; exact Hin|]. split; [exact Hy|].
+          intros d' Hd' Hy'. apply in_app_or in Hd'. destruct Hd' as [Hd'|[<-|[]]]; [apply Hb; assumption|].
+          congruence.
+      - intros d' Hd'. apply zupdate_keys_in. apply in_app_or in Hd'.
+        destruct Hd' as [Hd'|[<-|[]]]; [right; apply (p_years _ _ HP0); exact Hd'|left; reflexivity]. }
+    destruct (zlookup (year_of d) picks) as [old|] eqn:Eo.
+    - destruct (p_pick _ _ HP _ _ Eo) as [Hin [Hy Hb]].
+      assert (HoD : In old D) by (rewrite E; apply in_or_app; left; exact Hin).
+      destruct (Hdays old HoD) as [ro [Ero Hro]]. rewrite Ero, Hro, Hr.
+      destruct (Qcltb (T old) (T d)) eqn:Ecmp.
+      + eexists. split; [reflexivity|]. apply Hnew; [exact HP|].
+        intros d0 Hd0. rewrite Eo in Hd0. inversion Hd0; subst. apply Qcltb_true. exact Ecmp.
+      + exists picks. split; [reflexivity|]. apply Qcltb_false in Ecmp. constructor.
+        * apply (p_nodup _ _ HP).
+        * intros y d1 H. destruct (p_pick _ _ HP _ _ H) as [Hin1 [Hy1 Hb1]].
+          split; [apply in_or_app; left; exact Hin1|]. split; [exact Hy1|].
+          intros d' Hd' Hy'. apply in_app_or in Hd'. destruct Hd' as [Hd'|[<-|[]]]; [apply Hb1; assumption|].
+          (* the new day does not beat the old pick, and is later *)
+          assert (d1 = old) by (rewrite <- Hy', Eo in H; inversion H; reflexivity). subst d1.
+          specialize (Hlt old Hin). unfold better.
+          destruct (Qc_dec (T d) (T old)) as [[Hl|Hg]|He].
+          -- left. exact Hl.
+          -- exfalso. eapply Qclt_not_le; eassumption.
+          -- right. split; [exact He|lia].
+        * intros d' Hd'. apply in_app_or in Hd'. destruct Hd' as [Hd'|[<-|[]]]; [apply (p_years _ _ HP); exact Hd'|].
+          apply zlookup_in_keys. eauto.
+    - eexists. split; [reflexivity|]. apply Hnew; [exact HP|]. intros d0 Hd0. rewrite Eo in Hd0. discriminate.
+  Qed.
+
+  Lemma picks_loop Dr : forall Dp picks,
+    D = Dp ++ Dr -> PInv Dp picks ->
+    exists picks', mfold (pick_step days) Dr picks = Ok picks' /\ PInv D picks'.
+  Proof.
+    induction Dr as [|d Dr IH]; intros Dp picks E HP.
+    - exists picks. split; [reflexivity|]. rewrite E, app_nil_r. exact HP.
+    - destruct (pick_step_spec Dp d Dr picks E HP) as [p1 [E1 HP1]].
+      destruct (IH (Dp ++ [d]) p1) as [p2 [E2 HP2]]; [rewrite <- app_assoc; exact E|exact HP1|].
+      exists p2. cbn [mfold]. rewrite E1. cbn [bind]. split; assumption.
+  Qed.
+
+  Lemma yearly_picks_spec : exists picks, yearly_picks D days = Ok picks /\ PInv D picks.
+  Proof.
+    apply (picks_loop D [] []); [reflexivity|]. constructor.
+    - constructor.
+    - intros y d H. discriminate.
+    - intros d' [].
+  Qed.
+End Picks.
+
+(* ------------------------------------------------------------------ *)
+(* the key lists of the model are the day / security lists of the spec   *)
+
+Lemma zdedup_in x l : In x (zdedup l) <-> In x l.
+Proof.
+  induction l as [|a r IH]; cbn [zdedup]; [tauto|]. cbn [In]. rewrite filter_In, IH.
+  destruct (Z.eqb_spec x a) as [->|Hne]; cbn [negb]; intuition congruence.
+Qed.
+Lemma zdedup_nodup l : NoDup (zdedup l).
+Proof.
+  induction l as [|a r IH]; cbn [zdedup]; constructor.
+  - rewrite filter_In. intros [_ H]. rewrite Z.eqb_refl in H. discriminate.
+  - apply NoDup_filter. exact IH.
+Qed.
+Lemma ndedup_in x l : In x (ndedup l) <-> In x l.
+Proof.
+  induction l as [|a r IH]; cbn [ndedup]; [tauto|]. cbn [In]. rewrite filter_In, IH.
+  destruct (N.eqb_spec x a) as [->|Hne]; cbn [negb]; intuition congruence.
+Qed.
+Lemma ndedup_nodup l : NoDup (ndedup l).
+Proof.
+  induction l as [|a r IH]; cbn [ndedup]; constructor.
+  - rewrite filter_In. intros [_ H]. rewrite N.eqb_refl in H. discriminate.
+  - apply NoDup_filter. exact IH.
+Qed.
+
+Lemma filter_nonnil {X} (f : X -> bool) l : filter f l <> [] <-> exists x, In x l /\ f x = true.
+Proof.
+  split.
+  - intros H. destruct (filter f l) as [|x t] eqn:E; [contradiction|].
+    exists x. apply filter_In. rewrite E. left. reflexivity.
+  - intros [x Hx] E. apply filter_In in Hx. rewrite E in Hx. destruct Hx.
+Qed.
+
+Lemma model_secs_spec ds st : Inv1 ds st -> nsort (s_secs st) = spec_secs ds.
+Proof.
+  intros HI. unfold spec_secs. apply nsort_perm_eq. apply NoDup_Permutation.
+  - apply (i_secs _ _ HI).
+  - apply ndedup_nodup.
+  - intros s. rewrite (i_secs_in _ _ HI), ndedup_in, in_map_iff. unfold rows_of. rewrite filter_nonnil.
+    split.
+    + intros [c [Hin Hb]]. apply andb_prop in Hb. destruct Hb as [Hc Hs]. apply N.eqb_eq in Hs.
+      exists c. split; [exact Hs|]. apply filter_In. auto.
+    + intros [c [Hs Hin]]. apply filter_In in Hin. destruct Hin as [Hin Hc].
+      exists c. split; [exact Hin|]. rewrite Hc, Hs, N.eqb_refl. reflexivity.
+Qed.
+
+Lemma model_days_spec ds st : Inv1 ds st -> zsort (map fst (s_days st)) = spec_days ds.
+Proof.
+  intros HI. unfold spec_days. apply zsort_perm_eq. apply NoDup_Permutation.
+  - apply (i_keys _ _ HI).
+  - apply zdedup_nodup.
+  - intros d. rewrite (i_keys_in _ _ HI), zdedup_in, in_map_iff. split.
+    + intros [c [Hin [Hc Hd]]]. exists c. split; [exact Hd|]. apply filter_In. auto.
+    + intros [c [Hd Hin]]. apply filter_In in Hin. destruct Hin as [Hin Hc]. exists c. auto.
+Qed.
+
+Lemma mmap_all {X Y} (f : X -> res Y) (g : X -> Y) l :
+  (forall x, In x l -> f x = Ok (g x)) -> mmap f l = Ok (map g l).
+Proof.
+  induction l as [|x r IH]; intros H; cbn [mmap map]; [reflexivity|].
+  rewrite (H x (or_introl eq_refl)). cbn [bind]. rewrite IH; [reflexivity|].
+  intros y Hy. apply H. right. exact Hy.
+Qed.
+
+Lemma mmap_rel {X Y} (f : X -> res Y) (P : X -> Y -> Prop) l :
+  (forall x, In x l -> exists y, f x = Ok y /\ P x y) ->
+  exists ys, mmap f l = Ok ys /\ Forall2 P l ys.
+Proof.
+  induction l as [|x r IH]; intros H; cbn [mmap].
+  - exists []. split; [reflexivity|constructor].
+  - destruct (H x (or_introl eq_refl)) as [y [Ey Py]].
+    destruct IH as [ys [Eys Pys]]; [intros z Hz; apply H; right; exact Hz|].
+    exists (y :: ys). rewrite Ey. cbn [bind]. rewrite Eys. cbn [bind]. split; [reflexivity|].
+    constructor; assumption.
+Qed.
+
+(* ------------------------------------------------------------------ *)
+(* the refinement theorem                                                *)
+
+Theorem costs_refines_spec_any_order (sec_order : list N -> list N) ds :
+  (forall l, Permutation (sec_order l) l) ->
+  Forall valid_delta ds -> Forall faithful_delta ds -> chronological ds ->
+  exists t, costs_with exact CarryClosing sec_order zsort ds = Ok t /\
+            ct_secs t = spec_secs ds /\ ct_total t = spec_table ds /\
+            ct_notes t = spec_notes ds /\ yearly_ok ds (ct_yearly t).
+Proof.
+  intros Hord Hv Hf Hch.
+  destruct (loop1_spec ds Hv Hf Hch) as [st [E1 HI]].
+  destruct (loop2_spec ds st HI Hv Hch (sec_order (s_secs st)) (Hord _)) as [days [last [E2 HJ]]].
+  pose proof (model_secs_spec ds st HI) as Hsecs.
+  pose proof (model_days_spec ds st HI) as Hdays.
+  assert (Hkeys : map fst days = map fst (s_days st)) by (apply (j_keys _ _ _ _ _ HJ)).
+  assert (Hperm : Permutation (sec_order (s_secs st)) (spec_secs ds)).
+  { rewrite <- Hsecs. eapply Permutation_trans; [apply Hord|apply Permutation_sym, nsort_perm]. }
+  assert (Hfinal : forall d, In d (spec_days ds) ->
+            exists r, zlookup d days = Some r /\
+                      render_costs (spec_secs ds) r = Ok (spec_costs ds d) /\
+                      dr_total r = spec_total ds d).
+  { intros d Hd. rewrite <- Hdays in Hd.
+    destruct (final_day ds st HI _ (Hord _) days last d HJ Hd) as [r [Er [Hc Ht]]].
+    exists r. split; [exact Er|]. split.
+    - unfold render_costs, spec_costs. apply mmap_all. intros s Hs. rewrite Hc; [reflexivity|].
+      eapply Permutation_in; [apply Permutation_sym; exact Hperm|exact Hs].
+    - rewrite Ht. unfold spec_total, spec_costs. apply qsum_perm. apply Permutation_map. exact Hperm. }
+  assert (Hsorted : StronglySorted Z.lt (spec_days ds)).
+  { rewrite <- Hdays. apply (D_sorted ds st HI). }
+  destruct (yearly_picks_spec days (spec_total ds) (spec_days ds) Hsorted) as [picks [E3 HP]].
+  { intros d Hd. destruct (Hfinal d Hd) as [r [Er [_ Ht]]]. eauto. }
+  (* the Total Costs rows *)
+  assert (Etotal : mmap (render_day (spec_secs ds) days) (spec_days ds) = Ok (spec_table ds)).
+  { unfold spec_table. apply mmap_all. intros d Hd. destruct (Hfinal d Hd) as [r [Er [Hc Ht]]].
+    unfold render_day. rewrite Er, Hc. cbn [bind]. rewrite Ht. reflexivity. }
+  (* the Yearly Max rows *)
+  assert (Hyears : zsort (map fst picks) = spec_years ds).
+  { unfold spec_years. apply zsort_perm_eq. apply NoDup_Permutation.
+    - apply (p_nodup _ _ _ HP).
+    - apply zdedup_nodup.
+    - intros y. split.
+      + intros Hy. apply zlookup_in_keys in Hy. destruct Hy as [d Ed].
+        destruct (p_pick _ _ _ HP _ _ Ed) as [Hin [Hy _]].
+        apply zdedup_in. apply in_map_iff. exists d. auto.
+      + intros Hy. apply zdedup_in, in_map_iff in Hy. destruct Hy as [d [Hy Hd]]. subst y.
+        apply (p_years _ _ _ HP). exact Hd. }
+  destruct (mmap_rel (render_year (spec_secs ds) days picks)
+                     (fun y (r : yrow) => fst (fst (fst r)) = y /\ yrow_ok ds r) (spec_years ds))
+    as [yr [E4 Hyr]].
+  { intros y Hy. rewrite <- Hyears in Hy. apply zsort_in, zlookup_in_keys in Hy. destruct Hy as [d Ed].
+    destruct (p_pick _ _ _ HP _ _ Ed) as [Hin [Hyd Hb]].
+    destruct (Hfinal d Hin) as [r [Er [Hc Ht]]].
+    unfold render_year. rewrite Ed, Er, Hc. cbn [bind]. eexists. split; [reflexivity|].
+    split; [reflexivity|]. unfold yrow_ok. rewrite Ht.
+    split; [exact Hin|]. split; [exact Hyd|]. split; [reflexivity|].
+    intros d' Hd' Hy'. apply (Hb d' Hd' Hy'). }
+  eexists. split.
+  - unfold costs_with. rewrite E1. cbn [bind]. rewrite E2. cbn [bind].
+    rewrite Hkeys, Hdays, E3. cbn [bind]. rewrite Hsecs, Etotal. cbn [bind].
+    rewrite Hyears, E4. cbn [bind]. reflexivity.
+  - cbn [ct_secs ct_total ct_notes ct_yearly]. split; [reflexivity|]. split; [reflexivity|].
+    split; [apply (i_notes _ _ HI)|]. unfold yearly_ok. split.
+    + clear E4 Hyears. revert Hyr. generalize (spec_years ds). intros l Hyr.
+      induction Hyr as [|y r ys rs [Hy _] _ IH]; cbn [map]; [reflexivity|]. rewrite Hy, IH. reflexivity.
+    + clear E4 Hyears. revert Hyr. generalize (spec_years ds). intros l Hyr.
+      induction Hyr as [|y r ys rs [_ Hok] _ IH]; constructor; assumption.
+Qed.
+
+Theorem costs_refines_spec ds :
+  Forall valid_delta ds -> Forall faithful_delta ds -> chronological ds ->
+  exists t, costs exact ds = Ok t /\
+            ct_secs t = spec_secs ds /\ ct_total t = spec_table ds /\
+            ct_notes t = spec_notes ds /\ yearly_ok ds (ct_yearly t).
+Proof. apply (costs_refines_spec_any_order nsort). apply nsort_perm. Qed.
+
+(* under exact arithmetic the order in which the security set is walked in the
+   carry-forward loop does not matter at all (C09: the sum site costs.rs) *)
+Theorem costs_exact_any_sec_order (sec_order : list N -> list N) ds :
+  (forall l, Permutation (sec_order l) l) ->
+  Forall valid_delta ds -> Forall faithful_delta ds -> chronological ds ->
+  forall t t', costs_with exact CarryClosing sec_order zsort ds = Ok t -> costs exact ds = Ok t' ->
+  ct_secs t = ct_secs t' /\ ct_total t = ct_total t' /\ ct_notes t = ct_notes t'.
+Proof.
+  intros Hord Hv Hf Hch t t' E E'.
+  destruct (costs_refines_spec_any_order sec_order ds Hord Hv Hf Hch) as [t1 [E1 [A1 [B1 [C1 _]]]]].
+  destruct (costs_refines_spec ds Hv Hf Hch) as [t2 [E2 [A2 [B2 [C2 _]]]]].
+  rewrite E in E1. rewrite E' in E2. inversion E1; inversion E2; subst. repeat split; congruence.
+Qed.
+
+(* ------------------------------------------------------------------ *)
+(* what the executable specification means                               *)
+
+Lemma Qcmax_cases a b : (Qcmax a b = a /\ (b <= a)%Qc) \/ (Qcmax a b = b /\ (a <= b)%Qc).
+Proof.
+  unfold Qcmax. destruct (Qcltb a b) eqn:E; qc_bool; [right|left]; split; try reflexivity; try assumption.
+  apply Qclt_le_weak. exact E.
+Qed.
+
+Lemma fold_max_spec r : forall x,
+  In (fold_left Qcmax r x) (x :: r) /\ Forall (fun y => (y <= fold_left Qcmax r x)%Qc) (x :: r).
+Proof.
+  induction r as [|a r IH]; intros x; cbn [fold_left].
+  - split; [left; reflexivity|]. constructor; [apply Qcle_refl|constructor].
+  - destruct (IH (Qcmax x a)) as [Hin Hall]. inversion Hall as [|? ? Hm Hr]; subst.
+    destruct (Qcmax_cases x a) as [[E Hle]|[E Hle]]; rewrite E in *.
+    + split.
+      * destruct Hin as [Hin|Hin]; [left; exact Hin|right; right; exact Hin].
+      * constructor; [exact Hm|]. constructor; [eapply Qcle_trans; eassumption|exact Hr].
+    + split.
+      * destruct Hin as [Hin|Hin]; [right; left; exact Hin|right; right; exact Hin].
+      * constructor; [eapply Qcle_trans; eassumption|]. constructor; [exact Hm|exact Hr].
+Qed.
+
+(* qmax_list is the greatest element *)
+Lemma qmax_list_spec l m : qmax_list l = Some m -> In m l /\ Forall (fun y => (y <= m)%Qc) l.
+Proof.
+  destruct l as [|x r]; cbn [qmax_list]; [discriminate|]. intros H. inversion H; subst.
+  apply fold_max_spec.
+Qed.
+
+Lemma StronglySorted_filter {X} (R : X -> X -> Prop) f l :
+  StronglySorted R l -> StronglySorted R (filter f l).
+Proof.
+  induction 1 as [|a r Hs IH Hall]; cbn [filter]; [constructor|].
+  destruct (f a); [|exact IH]. constructor; [exact IH|].
+  rewrite Forall_forall in *. intros x Hx. apply filter_In in Hx. apply Hall. tauto.
+Qed.
+
+Lemma last_opt_sorted_max {X} (R : X -> X -> Prop) l c :
+  StronglySorted R l -> last_opt l = Some c -> forall x, In x l -> x = c \/ R x c.
+Proof.
+  induction 1 as [|a r Hs IH Hall]; [discriminate|].
+  cbn [last_opt]. destruct r as [|b t].
+  - intros H x [<-|[]]. inversion H. left. reflexivity.
+  - intros H x [<-|Hx].
+    + right. rewrite Forall_forall in Hall. apply Hall. apply (last_opt_in (b :: t)). exact H.
+    + apply IH; assumption.
+Qed.
+
+(* The figure of security s on day d:
+   (1) if counted rows of s settle on d: the greatest cost base after any of them;
+   (2) else, if s has earlier counted rows: the cost base after the latest of
+       them (no earlier row has a later day, and it is the last one in list order);
+   (3) else the opening cost base (before the first counted row of s; 0 if none). *)
+Theorem spec_cost_meaning ds d s :
+  chronological ds ->
+  let rows := rows_of ds s in
+  let today := filter (fun c => cd_day c =? d) rows in
+  let earlier := filter (fun c => cd_day c <? d) rows in
+  (today <> [] ->
+     (exists c, In c today /\ spec_cost ds d s = post_of c) /\
+     (forall c, In c today -> (post_of c <= spec_cost ds d s)%Qc)) /\
+  (today = [] -> earlier <> [] ->
+     exists c, In c earlier /\ spec_cost ds d s = post_of c /\
+               last_opt earlier = Some c /\ forall c', In c' earlier -> cd_day c' <= cd_day c) /\
+  (today = [] -> earlier = [] ->
+     spec_cost ds d s = match rows with c :: _ => pre_of c | [] => 0%Qc end).
+Proof.
+  intros Hch rows today earlier. unfold spec_cost. fold rows. fold today earlier.
+  split; [|split].
+  - intros Hne. destruct (qmax_list (map post_of today)) as [m|] eqn:E.
+    + destruct (qmax_list_spec _ _ E) as [Hin Hall]. split.
+      * apply in_map_iff in Hin. destruct Hin as [c [Ec Hc]]. exists c. auto.
+      * intros c Hc. rewrite Forall_forall in Hall. apply Hall. apply in_map. exact Hc.
+    + apply qmax_map_none in E. contradiction.
+  - intros Ht Hne. rewrite Ht. cbn [map qmax_list].
+    destruct (last_opt earlier) as [c|] eqn:E; [|apply last_opt_none in E; contradiction].
+    exists c. split; [apply last_opt_in; exact E|]. split; [reflexivity|]. split; [reflexivity|].
+    intros c' Hc'.
+    assert (Hs : StronglySorted (fun a b => cd_day a <= cd_day b) earlier)
+      by (apply StronglySorted_filter; apply Hch).
+    destruct (last_opt_sorted_max _ earlier c Hs E c' Hc') as [->|H]; [lia|exact H].
+  - intros Ht He. rewrite Ht, He. reflexivity.
+Qed.
+
+Lemma sorted_N_le_nodup_lt l : StronglySorted N.le l -> NoDup l -> StronglySorted N.lt l.
+Proof.
+  induction 1 as [|a r Hs IH Hall]; intros Hn; [constructor|].
+  inversion Hn as [|? ? Hnin Hn']; subst. constructor; [apply IH; exact Hn'|].
+  rewrite Forall_forall in *. intros x Hx. specialize (Hall x Hx).
+  assert (x <> a) by (intros ->; contradiction). lia.
+Qed.
+
+(* the dated rows: the days on which a counted row settles, ascending *)
+Theorem spec_days_meaning ds :
+  StronglySorted Z.lt (spec_days ds) /\
+  forall d, In d (spec_days ds) <-> exists c, In c ds /\ counted c = true /\ cd_day c = d.
+Proof.
+  unfold spec_days. split.
+  - apply sorted_le_nodup_lt; [apply zsort_sorted|].
+    eapply Permutation_NoDup; [apply Permutation_sym, zsort_perm|apply zdedup_nodup].
+  - intros d. rewrite zsort_in, zdedup_in, in_map_iff. split.
+    + intros [c [Hd Hin]]. apply filter_In in Hin. exists c. tauto.
+    + intros [c [Hin [Hc Hd]]]. exists c. split; [exact Hd|]. apply filter_In. auto.
+Qed.
+
+(* the security columns: the securities with a counted row, ascending *)
+Theorem spec_secs_meaning ds :
+  StronglySorted N.lt (spec_secs ds) /\
+  forall s, In s (spec_secs ds) <-> exists c, In c ds /\ counted c = true /\ cd_sec c = s.
+Proof.
+  unfold spec_secs. split.
+  - apply sorted_N_le_nodup_lt; [apply nsort_sorted|].
+    eapply Permutation_NoDup; [apply Permutation_sym, nsort_perm|apply ndedup_nodup].
+  - intros s. rewrite nsort_in, ndedup_in, in_map_iff. split.
+    + intros [c [Hs Hin]]. apply filter_In in Hin. exists c. tauto.
+    + intros [c [Hin [Hc Hs]]]. exists c. split; [exact Hs|]. apply filter_In. auto.
+Qed.
+
+(* ---- corollaries in the words of the property ---- *)
+Corollary costs_daily ds t :
+  Forall valid_delta ds -> Forall faithful_delta ds -> chronological ds -> costs exact ds = Ok t ->
+  ct_secs t = spec_secs ds /\
+  ct_total t = map (fun d => (d, spec_total ds d, map (spec_cost ds d) (spec_secs ds))) (spec_days ds).
+Proof.
+  intros Hv Hf Hch E. destruct (costs_refines_spec ds Hv Hf Hch) as [t' [E' [H1 [H2 _]]]].
+  rewrite E in E'. inversion E'; subst t'. split; [exact H1|exact H2].
+Qed.
+
+Corollary costs_total_is_sum ds t :
+  Forall valid_delta ds -> Forall faithful_delta ds -> chronological ds -> costs exact ds = Ok t ->
+  Forall (fun r : trow => snd (fst r) = qsum (snd r)) (ct_total t).
+Proof.
+  intros Hv Hf Hch E. destruct (costs_daily ds t Hv Hf Hch E) as [_ H]. rewrite H.
+  apply Forall_forall. intros r Hr. apply in_map_iff in Hr. destruct Hr as [d [<- _]]. reflexivity.
+Qed.
+
+Corollary costs_yearly_is_argmax ds t :
+  Forall valid_delta ds -> Forall faithful_delta ds -> chronological ds -> costs exact ds = Ok t ->
+  yearly_ok ds (ct_yearly t).
+Proof.
+  intros Hv Hf Hch E. destruct (costs_refines_spec ds Hv Hf Hch) as [t' [E' [_ [_ [_ H]]]]].
+  rewrite E in E'. inversion E'; subst t'. exact H.
+Qed.
+
+Corollary costs_others_ignored ds t :
+  Forall valid_delta ds -> Forall faithful_delta ds -> chronological ds -> costs exact ds = Ok t ->
+  ct_notes t = map note_of (filter (fun d => negb (counted d)) ds).
+Proof.
+  intros Hv Hf Hch E. destruct (costs_refines_spec ds Hv Hf Hch) as [t' [E' [_ [_ [H _]]]]].
+  rewrite E in E'. inversion E'; subst t'. exact H.
+Qed.
+
+Corollary costs_no_panic ds :
+  Forall valid_delta ds -> Forall faithful_delta ds -> chronological ds -> is_ok (costs exact ds) = true.
+Proof.
+  intros Hv Hf Hch. destruct (costs_refines_spec ds Hv Hf Hch) as [t [E _]]. rewrite E. reflexivity.
+Qed.
+
+(* ---- the code before the carry-forward fix ---- *)
+Definition qz (z : Z) : Qc := Qcfrac z 1.
+Definition mkd (sec : N) (day : Z) (pre post : Z) : cdelta :=
+  {| cd_sec := sec; cd_day := day; cd_af := default_id; cd_dflt := true;
+     cd_pre := Some (qz pre); cd_post := Some (qz post) |}.
+(* AAA bought (cost 100) and fully sold settling 2022-03-03; BBB bought (cost 5) settling 2022-03-04 *)
+Definition carry_witness : list cdelta :=
+  [mkd 0 738217 0 100; mkd 0 738217 100 0; mkd 1 738218 0 5].
+
+Lemma carry_witness_pre :
+  Forall valid_delta carry_witness /\ Forall faithful_delta carry_witness /\ chronological carry_witness.
+Proof.
+  split; [|split].
+  - repeat constructor; eexists; (split; [reflexivity|]); unfold Qcle; vm_compute; discriminate.
+  - repeat constructor.
+  - intros s. destruct s as [|[p|p|]]; vm_compute; repeat constructor; try discriminate.
+Qed.
+
+Definition trow_nums (r : trow) : Z * Z * list Z :=
+  (fst (fst r), Qnum (this (snd (fst r))), map (fun q : Qc => Qnum (this q)) (snd r)).
+
+Lemma carry_max_refuted :
+  exists ds, Forall valid_delta ds /\ Forall faithful_delta ds /\ chronological ds /\
+             exists t, costs_with exact CarryMax nsort zsort ds = Ok t /\ ct_total t <> spec_table ds.
+Proof.
+  exists carry_witness. destruct carry_witness_pre as [H1 [H2 H3]]. repeat (split; [assumption|]).
+  destruct (costs_with exact CarryMax nsort zsort carry_witness) as [t| |] eqn:E.
+  - exists t. split; [reflexivity|]. intros H.
+    apply (f_equal (fun r => match r with Ok t => map trow_nums (ct_total t) | _ => [] end)) in E.
+    cbn beta iota in E. rewrite H in E. vm_compute in E. discriminate E.
+  - vm_compute in E. discriminate E.
+  - vm_compute in E. discriminate E.
+Qed.
+
+(* the same input through the code as it is now: AAA shows 0 on 2022-03-04 *)
+Lemma carry_witness_now :
+  match costs exact carry_witness with
+  | Ok t => map trow_nums (ct_total t) = [(738217, 100, [100; 0]); (738218, 5, [0; 5])]
+            /\ map (fun r : yrow => (fst (fst (fst r)), snd (fst (fst r)))) (ct_yearly t) = [(2022, 738217)]
+  | _ => False
+  end.
+Proof. vm_compute. split; reflexivity. Qed.
